@@ -270,7 +270,11 @@ def build_harness(name, sources, need_lib=True, extra_flags=(), lib_flags=(), ti
         if os.path.exists(exe):
             return exe
         for old in glob.glob(os.path.join(d, name + '-*')):
-            os.unlink(old)
+            try:      # keep recent binaries: a concurrent run against another source root (VERIF_REPO) may be using them
+                if time.time() - os.path.getmtime(old) > 3600:
+                    os.unlink(old)
+            except OSError:
+                pass
         lib = [repo_lib(lib_flags)] if need_lib else []
         rc, out = sh(CXX + list(extra_flags) + srcs + lib + ['-o', exe, '-latomic'], timeout=timeout)
         if rc != 0:
